@@ -675,6 +675,9 @@ class ExprParser:
                         d = self.next()
                         if d.kind not in ("num", "hex"):
                             raise self.err("array bound must be a constant")
+                        if d.kind == "hex" and int(d.text[1:], 16) >= 0x8000:
+                            # $hhhh is a 16-bit signed INTEGER constant: $8000 and above are negative sizes
+                            raise self.err(f"array size {d.text} is negative as a 16-bit INTEGER constant")
                         dims.append(int(d.text[1:], 16) if d.kind == "hex" else int(float(d.text)))
                         if self.is_op(","):
                             self.pos += 1
